@@ -4,3 +4,5 @@ import PqVerif.Props.C02
 #print axioms Pq.C02.chain_total
 #print axioms Pq.C02.early_abort_sound
 #print axioms Pq.C02.early_abort_never_bad
+#print axioms Pq.C02.cc_pmf_numerator
+#print axioms Pq.C02.cc_pmf_normalisation
